@@ -64,6 +64,8 @@ class ClassTable:
         "UnicodeEncodeError": "UnicodeError",
         "TypeError": "Exception",
         "AttributeError": "Exception",
+        "NameError": "Exception",
+        "UnboundLocalError": "NameError",
         "RuntimeError": "Exception",
         "RecursionError": "RuntimeError",
         "AssertionError": "Exception",
